@@ -1425,8 +1425,12 @@ impl Relation {
                     vec![SyntaxNode::new_root_mut(builder.finish()).into()],
                 );
             } else {
+                // after the architecture qualifier if there is one, else after the name
                 let name_node = self.0.children_with_tokens().find(|n| n.kind() == IDENT);
-                let idx = if let Some(name_node) = name_node {
+                let archqual_node = self.0.children().find(|n| n.kind() == ARCHQUAL);
+                let idx = if let Some(archqual_node) = archqual_node {
+                    archqual_node.index() + 1
+                } else if let Some(name_node) = name_node {
                     name_node.index() + 1
                 } else {
                     0
